@@ -719,6 +719,18 @@ func (database *ChainDatabase) GetCandidatesTop(hash common.Hash) []*Candidate {
 	}
 }
 
+// GetStableCandidatesTop returns the candidate list of the latest stable block in one step. Reading the stable block first
+// and asking GetCandidatesTop for its hash afterwards panics when a new block becomes stable in between.
+func (database *ChainDatabase) GetStableCandidatesTop() []*Candidate {
+	database.RW.Lock()
+	defer database.RW.Unlock()
+
+	if database.LastConfirm == nil || database.LastConfirm.Top == nil {
+		return nil
+	}
+	return database.LastConfirm.Top.GetTop()
+}
+
 func (database *ChainDatabase) GetCandidatesPage(index int, size int) ([]common.Address, uint32, error) {
 	if (index < 0) || (size > 200) || (size <= 0) {
 		return nil, 0, errors.New("argment error.")
